@@ -1,5 +1,5 @@
 From SV Require Import Base.ListX Store.Raw Store.RawRefine Store.CleanProps Store.Masked Store.StoreInv Store.Bag Store.Ledger
-  Store.DeadHandle
+  Store.ClearLedger Store.DeadHandle
   World.Env World.WorldSpec World.World World.Simulation World.NoStuck.
 From Coq Require Import Sorting.Permutation.
 From SV Require Import Props.C08.
@@ -70,3 +70,11 @@ Check (C08_deleting_entities_conserves : forall ids ms m c, LInvS ms m ->
 Check (C08_entry_api_conserves : forall ms m av e o c, LInvS ms m ->
   let '(ms', r, c') := st_entry ms av e o c in
   exists m', LInvS ms' m' /\ cx_stuck c' = cx_stuck c /\ conserves m m' (entry_ins ms o) (entry_rets o r) c c').
+Check (C08_clear_conserves : forall ms m c, LInvS ms m ->
+  let '(ms', c') := m_clear ms c in
+  LInvS ms' (NM.empty tok) /\ cx_stuck c' = cx_stuck c /\
+  exists d, cx_drops c' = d ++ cx_drops c /\ Permutation d (bag m)).
+Check (C08_get_mut_or_default_conserves : forall ms m av e c, LInvS ms m ->
+  let '(ms', o, c') := st_get_mut_or_default ms av e c in
+  exists m', LInvS ms' m' /\
+    conserves m m' (if present ms av e then [] else [fst (tnorm ms (if ms_unit ms then unit_tok else default_tok))]) [] c c').
